@@ -21,7 +21,7 @@ def shared_c02_harnesses(tier, which=('x0', 'evalobj', 'admission')):
 
 
 def harnesses(tier, seed):
-    return step.step_harnesses(tier, seed, 'C03') + shared_c02_harnesses(tier, ('x0',)) + outer.outer_harnesses(tier, seed, 'C03') + runstart.start_harnesses(tier, seed, 'C03')
+    return step.step_harnesses(tier, seed, 'C03') + step.action_harnesses(tier, seed, 'C03') + shared_c02_harnesses(tier, ('x0',)) + outer.outer_harnesses(tier, seed, 'C03') + runstart.start_harnesses(tier, seed, 'C03')
 
 
 def run(tier, seed):
